@@ -39,8 +39,17 @@ def party(el, userId="orcid", email=True, given=True):
         i.add_child(Node("givenName", content="Ann"))
     i.add_child(Node("surName", content="Lee"))
     p.add_child(i)
-    if email:
+    if email in (True, "one"):
         p.add_child(Node("electronicMailAddress", content="a@example.org"))
+    elif email in ("empty-then-filled", "filled-then-empty", "value-only-then-filled"):
+        filled = Node("electronicMailAddress", content="a@example.org")
+        empty = Node("electronicMailAddress", content="" if email != "value-only-then-filled" else None)
+        if email == "value-only-then-filled":
+            v = Node("value", content="b@example.org")
+            v.add_attribute("lang", "en")
+            empty.add_child(v)
+        for x in ([filled, empty] if email == "filled-then-empty" else [empty, filled]):
+            p.add_child(x)
     def uid(directory, val):
         u = Node("userId", content=val)
         u.add_attribute("directory", directory)
@@ -343,6 +352,9 @@ def w_profiles(idx):
             validate.tree(root)
         except Exception:  # noqa: BLE001
             invalid += 1
+            if p["group"] == "party" and p["party"]["email"] in ("empty-then-filled", "filled-then-empty"):
+                # a mutation of a valid tree (one of several addresses blanked): the party recommendations are still well defined
+                evs.append(record_eval(root, "warnings", {"profile": p, "tree": "one of two e-mail addresses blanked (not valid)"}))
             continue
         if i % 3 == 0:                  # also as the dataset of a complete eml document
             e = Node("eml")
